@@ -195,6 +195,8 @@ func runC11(c *core.Ctx, r *core.Reporter) {
 	c11alias(c, r)
 	c11propagate(c, r)
 	c11skip(c, r)
+	c11walk(c, r, "C11.walk")
+	c11insertpos(c, r)
 }
 
 // c11skip: a combination without a daemon of the kind being looked for is skipped, it does not end the walk.
